@@ -27,6 +27,17 @@ ZeroKey(j, hid) == [kind |-> "zerokey", hid |-> hid, idb |-> IdOf(j), k |-> B32(
 T2Vals == << <<2>>, <<1,0,0,0,0,0,0,0,0>>, <<1>> \o [q \in 1..15 |-> 0] \o <<7>>, <<1>> \o [q \in 1..24 |-> 0] \o <<5>>, <<13,236,13,237>>, <<3,0,0,0,0,0,0,0,0,0,0,0,0,0,0,0,0>> >>
 T2Key(j, hid, sv) == [kind |-> "t2key", hid |-> hid, idb |-> IdOf(j), k |-> B32(BMulMod(BMulMod(sv, H1(IdOf(j), hid), N), InvN(BSubMod(<<1>>, sv, N)), N)), t2 |-> B32(sv)]
 T2Keys(j) == IF j > 1 THEN <<>> ELSE [x \in 1..(3 * Len(T2Vals)) |-> T2Key(j, ((x - 1) % 3) + 1, T2Vals[((x - 1) \div 3) + 1])]
+\* master secrets for which the INVERSE (H1 + k)^-1 itself is a chosen short value s (its top limbs are zero): k = s^-1 - H1
+InvVals == << <<2>>, <<1,0,0,0,0,0,0,0,0>>, <<1>> \o [q \in 1..12 |-> 0] \o <<48,57>>, <<1>> \o [q \in 1..23 |-> 0] \o <<9>> >>
+InvKey(j, hid, sv) == [kind |-> "invkey", hid |-> hid, idb |-> IdOf(j), k |-> B32(BSubMod(InvN(sv), H1(IdOf(j), hid), N)), inv |-> B32(sv)]
+InvKeys(j) == IF j > 1 THEN <<>> ELSE [x \in 1..(3 * Len(InvVals)) |-> InvKey(j, ((x - 1) % 3) + 1, InvVals[((x - 1) \div 3) + 1])]
+\* identities whose hash H1(ID || hid) is SHORT (leading zero byte: 1 in 256): searched by the specification among "id000", "id001", ...
+IdNum(i) == <<105, 100, 48 + ((i \div 100) % 10), 48 + ((i \div 10) % 10), 48 + (i % 10)>>
+RECURSIVE FindShort(_, _, _)
+FindShort(i, hid, lim) == IF i > lim THEN <<>> ELSE IF B32(H1(IdNum(i), hid))[1] = 0 THEN IdNum(i) ELSE FindShort(i + 1, hid, lim)
+ShortId(hid) == FindShort(hid * 7, hid, 999)
+SmallRec(hid, idv) == [kind |-> "smallh1", hid |-> hid, idb |-> idv, found |-> IF idv = <<>> THEN 0 ELSE 1, h1 |-> IF idv = <<>> THEN <<>> ELSE B32(H1(idv, hid))]
+SmallH1(j) == IF j > 1 THEN <<>> ELSE << SmallRec(1, ShortId(1)), SmallRec(2, ShortId(2)), SmallRec(3, ShortId(3)) >>
 SpecSig3(j, ks, sg) == [kind |-> "specsig", ks |-> B32(ks), idb |-> IdOf(j), msg |-> MsgOfJ(j), r |-> B32(Kof(j, 2)), ok |-> sg[1],
                         h |-> IF sg[1] = "ok" THEN B32(sg[2]) ELSE <<>>, s |-> IF sg[1] = "ok" THEN <<4>> \o PtBytes(sg[3]) ELSE <<>>]
 SpecSig2(j, ks, ds) == SpecSig3(j, ks, Sign(GPow(ks), ds[2], MsgOfJ(j), Kof(j, 2)))
@@ -35,6 +46,6 @@ SpecCt2(j, ke, x) == [kind |-> "specct", ke |-> B32(ke), idb |-> IdOf(j), msg |-
 SpecCt(j) == SpecCt2(j, Kof(j, 9), Encrypt(GPow(Kof(j, 9)), PpubE(Kof(j, 9)), IdOf(j), MsgOfJ(j), Kof(j, 2)))
 Init == pidx = 0 /\ pout = <<>>
 Next == pidx < NK /\ pidx' = pidx + 1 /\
-        pout' = << ZeroKey(pidx + 1, 1), ZeroKey(pidx + 1, 2), ZeroKey(pidx + 1, 3), SpecSig(pidx + 1), SpecCt(pidx + 1) >> \o HaEntries(pidx + 1) \o T2Keys(pidx + 1)
+        pout' = << ZeroKey(pidx + 1, 1), ZeroKey(pidx + 1, 2), ZeroKey(pidx + 1, 3), SpecSig(pidx + 1), SpecCt(pidx + 1) >> \o HaEntries(pidx + 1) \o T2Keys(pidx + 1) \o InvKeys(pidx + 1) \o SmallH1(pidx + 1)
 Emit == \A j \in 1..Len(pout) : PrintT(<<"PLAN", ToJson(pout[j])>>)
 =============================================================================
